@@ -963,7 +963,9 @@ def c19_extra(tier, seed, rundir, merged, hard, inconclusive, extra_cov, stages)
                          "witness": {"workload": bp}})
         if ok1 and ok2:
             b1, b2 = m1.buckets.get("rel", {}), m2.buckets.get("rel", {})
-            diff = sorted(k for k in set(b1) | set(b2) if b1.get(k) != b2.get(k))
+            # stack.* buckets are measurements of the environment (lazy binding and first-call
+            # initialisation use stack once per process), not outcomes: not compared
+            diff = sorted(k for k in set(b1) | set(b2) if b1.get(k) != b2.get(k) and not k.startswith("stack."))
             sdiff = sorted(k for k in set(m1.sig_counts) | set(m2.sig_counts) if m1.sig_counts.get(k) != m2.sig_counts.get(k))
             entry["partitions_agree"] = not diff and not sdiff
             if diff or sdiff:
